@@ -16,10 +16,15 @@ import (
 
 // canonical trace of what one replica's shards and manager received, cycle by cycle
 func traceOf(o *Obs, rep, cycles int) []string {
+	return traceOfAt(o, func(int) int { return rep }, cycles)
+}
+
+// traceOfAt: the replica's position in the listing may differ from cycle to cycle
+func traceOfAt(o *Obs, repAt func(cycle int) int, cycles int) []string {
 	out := make([]string, cycles)
 	per := make([][]string, cycles)
 	for _, e := range o.Events {
-		if e.Rep != rep || e.Cycle >= cycles {
+		if e.Cycle >= cycles || e.Rep != repAt(e.Cycle) {
 			continue
 		}
 		var s string
@@ -73,9 +78,17 @@ func (s *c19Scenario) build(order string) *Case {
 		case "V":
 			c.Cycles = append(c.Cycles, []Replica{s.V[k]})
 		case "HV":
-			c.Cycles = append(c.Cycles, []Replica{s.H[k], s.V[k]})
+			if s.H[k].Absent {
+				c.Cycles = append(c.Cycles, []Replica{s.V[k]})
+			} else {
+				c.Cycles = append(c.Cycles, []Replica{s.H[k], s.V[k]})
+			}
 		case "VH":
-			c.Cycles = append(c.Cycles, []Replica{s.V[k], s.H[k]})
+			if s.H[k].Absent {
+				c.Cycles = append(c.Cycles, []Replica{s.V[k]})
+			} else {
+				c.Cycles = append(c.Cycles, []Replica{s.V[k], s.H[k]})
+			}
 		}
 	}
 	c.fixIdle()
@@ -227,7 +240,11 @@ func c19RandomOnce(r *core.Rng) *c19Scenario {
 			}
 			h.Shards = append(h.Shards, sh)
 		}
-		switch r.Intn(8) {
+		switch r.Intn(10) {
+		case 8, 9:
+			if k > 0 {
+				h.Absent = true
+			}
 		case 0:
 			h.ShardsErr = true
 		case 1:
@@ -424,6 +441,9 @@ func runC19(w *core.WorkerCtx, idx int) *core.CaseResult {
 	res.AddStat("cases_compared", 1)
 	hostile := map[string]bool{}
 	for _, rep := range s.H {
+		if rep.Absent {
+			hostile["absent-from-the-listing-in-some-cycles"] = true
+		}
 		for _, sh := range rep.Shards {
 			if sh.Ready && sh.StatusOK && !sh.RuntimeOK {
 				hostile["shard-answers-status-but-not-runtimeinfo"] = true
@@ -469,7 +489,12 @@ func runC19(w *core.WorkerCtx, idx int) *core.CaseResult {
 				res.Witness = map[string]interface{}{"scenario": s, "order": order}
 				return res
 			}
-			t := traceOf(o, vrep, nC)
+			t := traceOfAt(o, func(cyc int) int {
+				if cyc < len(s.H) && s.H[cyc].Absent {
+					return 0 // the victim is the only replica listed in this cycle
+				}
+				return vrep
+			}, nC)
 			for cyc := 0; cyc < nC; cyc++ {
 				if t[cyc] != ref[cyc] {
 					switch aloneAgain(1000, 100) {
@@ -513,7 +538,7 @@ func init() {
 	core.Register(&core.Prop{
 		ID:    "C19",
 		Level: "exploration",
-		Rule: "differential over the stub-cycle engine: scenario = options + discovery + explorer table + a victim replica scripted for 4-5 cycles + a hostile replica (shard listing fails, scaling fails early/late, entirely unready, out of sync, shards that answer their status but not their runtime info, a different placement of the same targets incl. in-transfer copies with larger series than the explorer's estimate); " +
+		Rule: "differential over the stub-cycle engine: scenario = options + discovery + explorer table + a victim replica scripted for 4-5 cycles + a hostile replica (shard listing fails, scaling fails early/late, entirely unready, out of sync, shards that answer their status but not their runtime info, a replica that is missing from the listing in some cycles (so that the victim changes its position), a different placement of the same targets incl. in-transfer copies with larger series than the explorer's estimate); " +
 			"the victim is run alone (4 repetitions; victim scripts are generated under structural conditions that make its decisions independent of map order (first-fit mode, at most one unscraped healthy target per cycle, overloaded or non-first shards report at most one target); cases that still show more than one outcome in 30 repetitions are discarded and counted) and next to the hostile replica in both orders (3 repetitions each) through the real Coordinator.Run; the canonical per-cycle trace of everything the victim's shards and manager receive (GET/POST with target lists as sets, ChangeScale arguments) must be identical; a mismatch is re-examined with 100 repetitions of the victim alone: mixed outcomes discard the case, 100 of 100 equal to each other but different from before are reported as state leaking between replicas, and the victim alone is repeated after every case for the same test; " +
 			"plus the Kubernetes replicas manager on a fake clientset: the scripted life of one StatefulSet (ready / not ready / rolling update over 4-11 cycles, 0-130 s passing between cycles through the verif hook that shifts the manager's not-ready timers) is run alone and next to a second scripted StatefulSet listed before or after it; 'handed to the coordinator in this cycle' must be identical; " +
 			"plus a soak family (2/8): the healthy replica in an E2 closed loop (real api.Get/api.Post over loopback) next to a replica whose only shard answers 503 with an error body, 150-400 cycles in a child process whose RLIMIT_NOFILE is the number of descriptors open after a warm-up plus 30-60, and a control run without that replica; violation = a cycle does not complete AND the process can open fewer than 4 further descriptors, or a target discovered 12 cycles before the end is never assigned; " +
